@@ -142,3 +142,7 @@ func vSignDigestKeyIs(k *rsa.PrivateKey) bool
 
 func vSignatureCovers(root *etree.Element, sigIndex int) bool
 func vSPCertBytes() []byte
+
+func vFormField(out []byte, element, nameAttr, valueAttr string) (string, bool, bool)
+func vFormCount(out []byte, tag string) int
+func vPostedDocumentSigned(b64doc string) bool
